@@ -406,6 +406,42 @@ theorem transparent_history (f : List ℝ → ℝ) (w : W ℝ) (es : List (Entry
   exact ⟨a, b, c⟩
 
 
+/-! ## 3b. Selected variables the list does not mention are skipped (known finding)
+
+FULL statement of the property's exactness clause: after every entry point, for EVERY selected
+variable, the stored first / second / cross derivative is the scheme's formula at the current
+point.  It is FALSE of the code: `if (!parameters.hasParameter(var)) continue;` (Two:40, Three:42,
+Five:27, cross loops Three:150/160) — and `setParameterValue` hands over a one-element list.  The
+stored-value theorems below are therefore named `…_partial`: they carry the explicit guard
+`has params w.vars[k] = true` (the fall-back theorems: `find? params v = some qv`).  Witness of the
+defect, for all inputs: an iteration for a variable that the list does not mention is the identity,
+so what is stored for it is what was stored before, whatever moved.  Driver clause
+`stale_derivative`, known finding C12-unlisted-selected-stale, corpus/C12/stale.txt. -/
+
+theorem unlisted_variable_skipped (f : List ℝ → ℝ) (params : PList ℝ) (lp : Loop ℝ) (i : Nat) (var : Name)
+    (hun : has params var = false) :
+    step2 f params lp i var = (lp, none) ∧ step3 f params lp i var = (lp, none) ∧ step5 f params lp i var = (lp, none) := by
+  refine ⟨?_, ?_, ?_⟩
+  · unfold step2; simp [hun]
+  · unfold step3; simp [hun]
+  · unfold step5; simp [hun]
+
+/-- the same for the cross-derivative block: a pair with an unlisted second variable is skipped, a
+row with an unlisted first variable is skipped -/
+theorem unlisted_pair_skipped (f : List ℝ → ℝ) (params : PList ℝ) (i j : Nat) (var1 var2 : Name) (vs all : List Name)
+    (cl : CLoop ℝ) (hji : j ≠ i) :
+    (has params var2 = false → crossRow f params i var1 (var2 :: vs) j cl = crossRow f params i var1 vs (j + 1) cl) ∧
+    (has params var1 = false → crossGo f params all (var1 :: vs) i cl = crossGo f params all vs (i + 1) cl) := by
+  constructor
+  · intro h; conv_lhs => unfold crossRow
+    simp [hji, h]
+  · intro h; conv_lhs => unfold crossGo
+    simp [h]
+
+/-- the hypotheses are satisfiable: `setParameterValue` on one of two selected variables -/
+example : ∃ (params : PList ℝ) (var : Name), has params var = false ∧ params ≠ [] :=
+  ⟨[⟨0, 3, 0, none⟩], 1, by simp [has], by simp⟩
+
 /-! ## 4. What the three-point wrapper stores, end to end
 
 The nominal situation (`Free`): no constraint on the wrapped function's side, no constraint and no
@@ -416,7 +452,7 @@ selected variable present in the list, stores the central differences around the
 of `f` at `B` with that one coordinate moved by `∓H`.  Composed with part 1 this is exactness of
 the *stored* derivatives. -/
 
-theorem three_point_computes_central (f : List ℝ → ℝ) (w : W ℝ) (params : PList ℝ) (hown : Own w.fn) (hok : w.fn.OK f)
+theorem three_point_computes_central_partial (f : List ℝ → ℝ) (w : W ℝ) (params : PList ℝ) (hown : Own w.fn) (hok : w.fn.OK f)
     (hF : Free f params w.fn.params) (hB : BoundedNear f w.fn.params w.h) (hpnd : (names params).Nodup) (hc1 : w.c1 = true) (hcx : w.cx = false)
     (hvars : w.vars.Nodup) (hin : ∀ v ∈ w.vars, has params v = true → v ∈ names w.fn.params) (hh : 0 < w.h)
     (hl1 : w.der1.length = w.vars.length) (hl2 : w.der2.length = w.vars.length) :
@@ -429,7 +465,7 @@ theorem three_point_computes_central (f : List ℝ → ℝ) (w : W ℝ) (params 
 /-- the stored three-point derivatives are the analytical ones when `f`, as a function of the
 selected variable alone (the others at the requested point), is a cubic: the second derivative
 always, the first one when the cubic term vanishes (degree ≤ 2) -/
-theorem three_point_stored_exact (f : List ℝ → ℝ) (w : W ℝ) (params : PList ℝ) (hown : Own w.fn) (hok : w.fn.OK f)
+theorem three_point_stored_exact_partial (f : List ℝ → ℝ) (w : W ℝ) (params : PList ℝ) (hown : Own w.fn) (hok : w.fn.OK f)
     (hF : Free f params w.fn.params) (hB : BoundedNear f w.fn.params w.h) (hpnd : (names params).Nodup) (hc1 : w.c1 = true) (hcx : w.cx = false)
     (hvars : w.vars.Nodup) (hin : ∀ v ∈ w.vars, has params v = true → v ∈ names w.fn.params) (hh : 0 < w.h)
     (hl1 : w.der1.length = w.vars.length) (hl2 : w.der2.length = w.vars.length)
@@ -745,7 +781,7 @@ theorem delegation_end_to_end (f : List ℝ → ℝ) (D : Deriv ℝ) (w : W ℝ)
 
 /-! ## 7. What the five-point wrapper stores, end to end (nominal path) -/
 
-theorem five_point_computes_central (f : List ℝ → ℝ) (w : W ℝ) (params : PList ℝ) (hown : Own w.fn) (hok : w.fn.OK f)
+theorem five_point_computes_central_partial (f : List ℝ → ℝ) (w : W ℝ) (params : PList ℝ) (hown : Own w.fn) (hok : w.fn.OK f)
     (hF : Free f params w.fn.params) (hpnd : (names params).Nodup) (hc1 : w.c1 = true)
     (hvars : w.vars.Nodup) (hin : ∀ v ∈ w.vars, has params v = true → v ∈ names w.fn.params)
     (hl1 : w.der1.length = w.vars.length) (hl2 : w.der2.length = w.vars.length) :
@@ -758,7 +794,7 @@ theorem five_point_computes_central (f : List ℝ → ℝ) (w : W ℝ) (params :
 /-- the stored five-point derivatives are the analytical ones when `f`, as a function of the
 selected variable alone, is a polynomial of degree ≤ 5: the second derivative always, the first
 one when the degree is ≤ 4 -/
-theorem five_point_stored_exact (f : List ℝ → ℝ) (w : W ℝ) (params : PList ℝ) (hown : Own w.fn) (hok : w.fn.OK f)
+theorem five_point_stored_exact_partial (f : List ℝ → ℝ) (w : W ℝ) (params : PList ℝ) (hown : Own w.fn) (hok : w.fn.OK f)
     (hF : Free f params w.fn.params) (hpnd : (names params).Nodup) (hc1 : w.c1 = true)
     (hvars : w.vars.Nodup) (hin : ∀ v ∈ w.vars, has params v = true → v ∈ names w.fn.params) (hh : w.h ≠ 0)
     (hl1 : w.der1.length = w.vars.length) (hl2 : w.der2.length = w.vars.length)
@@ -799,7 +835,7 @@ theorem five_point_stored_exact (f : List ℝ → ℝ) (w : W ℝ) (params : PLi
 /-- the stored two-point derivative is the difference quotient between the requested point and the
 point with that coordinate moved by `-(1 + |x|) h`; it is the analytical derivative when `f` is
 affine in the selected variable, and off by `-c (1 + |x|) h` on a quadratic `… + c t²` -/
-theorem two_point_stored_exact (f : List ℝ → ℝ) (w : W ℝ) (params : PList ℝ) (hown : Own w.fn) (hok : w.fn.OK f)
+theorem two_point_stored_exact_partial (f : List ℝ → ℝ) (w : W ℝ) (params : PList ℝ) (hown : Own w.fn) (hok : w.fn.OK f)
     (hF : Free f params w.fn.params) (hB : BoundedNear f w.fn.params w.h) (hpnd : (names params).Nodup) (hc1 : w.c1 = true)
     (hvars : w.vars.Nodup) (hin : ∀ v ∈ w.vars, has params v = true → v ∈ names w.fn.params) (hh : w.h ≠ 0)
     (hl1 : w.der1.length = w.vars.length)
@@ -835,7 +871,7 @@ theorem two_point_stored_exact (f : List ℝ → ℝ) (w : W ℝ) (params : PLis
 stores the same first and second derivatives, and for every ordered pair of distinct selected
 variables present in the list stores the 2×2-stencil quotient around the requested point
 (`get2 m i j` is the entry `(i, j)` of the matrix `crossDer2_`) -/
-theorem three_point_cross_computes (f : List ℝ → ℝ) (w : W ℝ) (params : PList ℝ) (hown : Own w.fn) (hok : w.fn.OK f)
+theorem three_point_cross_computes_partial (f : List ℝ → ℝ) (w : W ℝ) (params : PList ℝ) (hown : Own w.fn) (hok : w.fn.OK f)
     (hF : Free f params w.fn.params) (hB : BoundedNear f w.fn.params w.h) (hpnd : (names params).Nodup) (hc1 : w.c1 = true) (hcx : w.cx = true)
     (hvars : w.vars.Nodup) (hin : ∀ v ∈ w.vars, has params v = true → v ∈ names w.fn.params) (hh : 0 < w.h)
     (hl1 : w.der1.length = w.vars.length) (hl2 : w.der2.length = w.vars.length) :
@@ -850,7 +886,7 @@ theorem three_point_cross_computes (f : List ℝ → ℝ) (w : W ℝ) (params : 
 
 /-- the stored cross derivative is the analytical one when `f`, as a function of the two variables
 alone, has degree ≤ 2 in each of them -/
-theorem cross_stored_exact (f : List ℝ → ℝ) (w : W ℝ) (params : PList ℝ) (hown : Own w.fn) (hok : w.fn.OK f)
+theorem cross_stored_exact_partial (f : List ℝ → ℝ) (w : W ℝ) (params : PList ℝ) (hown : Own w.fn) (hok : w.fn.OK f)
     (hF : Free f params w.fn.params) (hB : BoundedNear f w.fn.params w.h) (hpnd : (names params).Nodup) (hc1 : w.c1 = true) (hcx : w.cx = true)
     (hvars : w.vars.Nodup) (hin : ∀ v ∈ w.vars, has params v = true → v ∈ names w.fn.params) (hh : 0 < w.h)
     (hl1 : w.der1.length = w.vars.length) (hl2 : w.der2.length = w.vars.length)
@@ -1120,7 +1156,7 @@ theorem two_point_halved_stored (f : List ℝ → ℝ) (w : W ℝ) (params : PLi
 `x + s₀, x + s₁, …` (`s₀ = -H`, then `H, -H/2, H/2, -H/4, …`; `stepAt`) let the first `j` be refused by
 the constraint the variable is passed with and the next one accepted.  Then `updateDerivatives` does
 not raise and stores — not the NaN marker but — the difference quotient with the step `s_j`.
-(`two_point_stored_exact`, `two_point_right_stored`, `two_point_halved_stored` are `j = 0, 1, 2`.) -/
+(`two_point_stored_exact_partial`, `two_point_right_stored`, `two_point_halved_stored` are `j = 0, 1, 2`.) -/
 theorem two_point_falls_back (f : List ℝ → ℝ) (w : W ℝ) (params : PList ℝ) (v : Name) (hown : Own w.fn)
     (hok : w.fn.OK f) (hF : FreeFn f params w.fn.params) (hB : BoundedNear f w.fn.params w.h) (hpnd : (names params).Nodup)
     (hc1 : w.c1 = true) (hvars : w.vars = [v]) (hh : w.h ≠ 0) (b qv : Param ℝ)
@@ -1287,36 +1323,36 @@ hypothesis; each `example` below is the theorem applied to the instance, with th
 section instances
 open Bpp.NumDeriv
 
-/-- `three_point_computes_central`, `three_point_stored_exact` on the cubic: `f''(0) = 2` stored -/
+/-- `three_point_computes_central_partial`, `three_point_stored_exact_partial` on the cubic: `f''(0) = 2` stored -/
 example : (update3 (exf cubic) (exW cubic .three) (exP none)).2 = none ∧
     (update3 (exf cubic) (exW cubic .three) (exP none)).1.der2[0]? = some (some (2 * 1 + 6 * 1 * 0)) :=
-  ⟨(three_point_computes_central (exf cubic) (exW cubic .three) (exP none) (ex_own _ _) (ex_ok _ _) (ex_free _)
+  ⟨(three_point_computes_central_partial (exf cubic) (exW cubic .three) (exP none) (ex_own _ _) (ex_ok _ _) (ex_free _)
       (ex_bounded _ cubic_bound) (by simp [names, exP]) rfl rfl (by simp [exW]) (hin_ex _ _) (by norm_num [exW]) rfl rfl).1,
-   (three_point_stored_exact (exf cubic) (exW cubic .three) (exP none) (ex_own _ _) (ex_ok _ _) (ex_free _)
+   (three_point_stored_exact_partial (exf cubic) (exW cubic .three) (exP none) (ex_own _ _) (ex_ok _ _) (ex_free _)
       (ex_bounded _ cubic_bound) (by simp [names, exP]) rfl rfl (by simp [exW]) (hin_ex _ _) (by norm_num [exW]) rfl rfl
       0 (by simp [exW]) rfl ⟨0, 0, 0, none⟩ rfl 1 1 1 1 (fun t => ex_poly cubic t)).1⟩
 
 /-- … and on the quadratic the first derivative `f'(0) = 1` is exact -/
 example : (update3 (exf quadr) (exW quadr .three) (exP none)).1.der1[0]? = some (some (1 + 2 * 1 * 0)) :=
-  (three_point_stored_exact (exf quadr) (exW quadr .three) (exP none) (ex_own _ _) (ex_ok _ _) (ex_free _)
+  (three_point_stored_exact_partial (exf quadr) (exW quadr .three) (exP none) (ex_own _ _) (ex_ok _ _) (ex_free _)
       (ex_bounded _ quadr_bound) (by simp [names, exP]) rfl rfl (by simp [exW]) (hin_ex _ _) (by norm_num [exW]) rfl rfl
       0 (by simp [exW]) rfl ⟨0, 0, 0, none⟩ rfl 1 1 1 0 (fun t => (ex_poly quadr t).trans (by simp [quadr]))).2 rfl
 
-/-- `two_point_stored_exact` on the quadratic: `f'(0) = 1` off by `-a₂ H = -1/16` -/
+/-- `two_point_stored_exact_partial` on the quadratic: `f'(0) = 1` off by `-a₂ H = -1/16` -/
 example : (update2 (exf quadr) (exW quadr .two) (exP none)).1.der1[0]? =
     some (some ((1 + 2 * 1 * 0) + 1 * (-(1 + |(0 : ℝ)|) * (1 / 16)))) :=
-  (two_point_stored_exact (exf quadr) (exW quadr .two) (exP none) (ex_own _ _) (ex_ok _ _) (ex_free _)
+  (two_point_stored_exact_partial (exf quadr) (exW quadr .two) (exP none) (ex_own _ _) (ex_ok _ _) (ex_free _)
       (ex_bounded _ quadr_bound) (by simp [names, exP]) rfl (by simp [exW]) (hin_ex _ _) (by norm_num [exW]) rfl
       0 (by simp [exW]) rfl ⟨0, 0, 0, none⟩ rfl 1 1 1 (fun t => ex_poly quadr t)).2
 
-/-- `five_point_computes_central`, `five_point_stored_exact` (no boundedness hypothesis at all: the
+/-- `five_point_computes_central_partial`, `five_point_stored_exact_partial` (no boundedness hypothesis at all: the
 five-point scheme has no VERY_BIG test) on `poly5` with coefficients `1, 1, 1, 1, 0, 0` -/
 example : (update5 (exf (poly5 fun i => if i.val ≤ 3 then 1 else 0)) (exW (poly5 fun i => if i.val ≤ 3 then 1 else 0) .five) (exP none)).2 = none ∧
     (update5 (exf (poly5 fun i => if i.val ≤ 3 then 1 else 0)) (exW (poly5 fun i => if i.val ≤ 3 then 1 else 0) .five) (exP none)).1.der1[0]?
       = some (some (poly5' (fun i => if i.val ≤ 3 then 1 else 0) 0)) :=
-  ⟨(five_point_computes_central _ (exW _ .five) (exP none) (ex_own _ _) (ex_ok _ _) (ex_free _)
+  ⟨(five_point_computes_central_partial _ (exW _ .five) (exP none) (ex_own _ _) (ex_ok _ _) (ex_free _)
       (by simp [names, exP]) rfl (by simp [exW]) (hin_ex _ _) rfl rfl).1,
-   (five_point_stored_exact _ (exW _ .five) (exP none) (ex_own _ _) (ex_ok _ _) (ex_free _)
+   (five_point_stored_exact_partial _ (exW _ .five) (exP none) (ex_own _ _) (ex_ok _ _) (ex_free _)
       (by simp [names, exP]) rfl (by simp [exW]) (hin_ex _ _) (by norm_num [exW]) rfl rfl
       0 (by simp [exW]) rfl ⟨0, 0, 0, none⟩ rfl _ (fun t => ex_poly _ t)).2 (by simp)⟩
 
@@ -1378,15 +1414,15 @@ example : (update3 (exf cubic) (exW cubic .three) (exP (cn (-3 / 64) (3 / 64))))
     (by simp [qc, cn, exW, Param.violates, Interval.isCorrect, Scalar.geb, Scalar.leb] <;> norm_num)
     1 1 1 1 (fun t => ex_poly cubic t)).2.2.1
 
-/-- `three_point_cross_computes`, `cross_stored_exact` on `f(x, y) = x y + x`: `∂²f/∂x∂y = 1` stored -/
+/-- `three_point_cross_computes_partial`, `cross_stored_exact_partial` on `f(x, y) = x y + x`: `∂²f/∂x∂y = 1` stored -/
 example : (update3 exf2 exW2 exB2).2 = none ∧
     get2 (update3 exf2 exW2 exB2).1.cross 0 1 =
       some (some (biquadXY (fun i j => if i.val = 1 ∧ j.val ≤ 1 then 1 else 0) 0 0)) := by
   have hin : ∀ v ∈ exW2.vars, has exB2 v = true → v ∈ names exW2.fn.params := by
     intro v hv _; simp [exW2] at hv; rcases hv with rfl | rfl <;> simp [exW2, exB2, names]
-  refine ⟨(three_point_cross_computes exf2 exW2 exB2 ex2_own ex2_ok ex2_free ex2_bounded (by simp [names, exB2]) rfl rfl
+  refine ⟨(three_point_cross_computes_partial exf2 exW2 exB2 ex2_own ex2_ok ex2_free ex2_bounded (by simp [names, exB2]) rfl rfl
       (by simp [exW2]) hin (by norm_num [exW2]) rfl rfl).1, ?_⟩
-  exact cross_stored_exact exf2 exW2 exB2 ex2_own ex2_ok ex2_free ex2_bounded (by simp [names, exB2]) rfl rfl
+  exact cross_stored_exact_partial exf2 exW2 exB2 ex2_own ex2_ok ex2_free ex2_bounded (by simp [names, exB2]) rfl rfl
     (by simp [exW2]) hin (by norm_num [exW2]) rfl rfl 0 1 (by simp [exW2]) (by simp [exW2]) (by decide) rfl rfl
     (by simp [get2, exW2]) ⟨0, 0, 0, none⟩ ⟨1, 0, 0, none⟩ rfl rfl _
     (fun s t => by
